@@ -3,6 +3,7 @@ package core
 import (
 	"fmt"
 	"strings"
+	"unicode/utf8"
 
 	"github.com/mk6i/mkdb/engine"
 	"github.com/mk6i/mkdb/sql"
@@ -22,8 +23,13 @@ func valSQL(v Val) (string, bool) {
 		}
 		return fmt.Sprint(v.I), true
 	case "s":
+		// the scanner passes any valid UTF-8 through a quoted literal except a
+		// quote, a backslash (escapes the closing quote) and a line break
+		if !utf8.Valid(v.S) {
+			return "", false
+		}
 		for _, b := range v.S {
-			if b == '\'' || b == '\\' || b == '\n' || b == '\r' || b < 0x20 || b >= 0x7f {
+			if b == '\'' || b == '\\' || b == '\n' || b == '\r' || b == 0 {
 				return "", false
 			}
 		}
